@@ -397,6 +397,20 @@ def main(ctx):
         style = rng.choice(['verilog', 'verilog', 'verilog-adv', 'plain', 'plain'])
         d = gen.rand_design(rng, profile=prof, ops=OPS, raw=False, name_style=style, max_total=200,
                             nops=rng.randint(3, 18))
+        if k % 3 == 0:
+            # a name that must be replaced (and sorts before '_') next to wires legitimately called like the
+            # replacements the exporter makes up
+            ws_ = sorted((w for w in d.block.wirevector_set if not isinstance(w, pyrtl.Const)
+                          and w.name not in ('tb_iter', 'block')), key=lambda w: w.name)
+            if len(ws_) >= 3:
+                picks = rng.sample(ws_, 3)
+                try:
+                    picks[0].name = rng.choice(['A.', '9', 'Z-']) + 'x%d' % k
+                    picks[1].name = '_ver_out_tmp_0'
+                    picks[2].name = '_ver_out_tmp_1'
+                    ctx.count('names', 'collide-with-generated')
+                except pyrtl.PyrtlError:
+                    pass
         try:
             d.block.sanity_check()
         except pyrtl.PyrtlError:
